@@ -9,52 +9,14 @@ namespace K
 variable {α : Type} [Add α] [Sub α] [Mul α] [Div α] [Neg α] [LT α] [LE α]
   [DecidableLT α] [DecidableLE α] [OfScientific α] [KOps α]
 
-/-- mirrors: eq_filter.rs::EqFilterKind -/
-inductive EqFilterKind where
-  | bell | lowShelf | highShelf
-deriving DecidableEq, Repr
-
 /-- mirrors: eq_filter.rs::MIN_Q -/
-def eqMinQ : α := (0.01 : α)
+def eqMinQ : α := gen_body% Gen.eqFilterMinQ
+gen_alias Gen.eqFilterMinQ => eqMinQ
 
-/-- mirrors: eq_filter.rs::Coefficients (all `f64`) -/
-structure EqCoefs (α : Type) where
-  a1 : α
-  a2 : α
-  a3 : α
-  m0 : α
-  m1 : α
-  m2 : α
-
-/-- mirrors: eq_filter.rs::Coefficients::calculate (`gain` is the `f32` decibel value) -/
+/-- mirrors: eq_filter.rs::Coefficients::calculate (`gain` is the `f32` decibel value) — generated (GenFn.lean) -/
 def EqCoefs.calculate (kind : EqFilterKind) (frequency q gain dt : α) : EqCoefs α :=
-  let relativeFrequency := clamp (frequency * dt) (0.0001 : α) (0.5 : α)
-  let q := fmax q (eqMinQ : α)
-  match kind with
-  | .bell =>
-    let a := KOps.pow (10.0 : α) (gain / (40.0 : α))
-    let g := KOps.tan (KOps.pi * relativeFrequency)
-    let k := (1.0 : α) / (q * a)
-    let a1 := (1.0 : α) / ((1.0 : α) + g * (g + k))
-    let a2 := g * a1
-    let a3 := g * a2
-    { a1 := a1, a2 := a2, a3 := a3, m0 := (1.0 : α), m1 := k * (a * a - (1.0 : α)), m2 := (0.0 : α) }
-  | .lowShelf =>
-    let a := KOps.pow (10.0 : α) (gain / (40.0 : α))
-    let g := KOps.tan (KOps.pi * relativeFrequency) / KOps.sqrt a
-    let k := (1.0 : α) / q
-    let a1 := (1.0 : α) / ((1.0 : α) + g * (g + k))
-    let a2 := g * a1
-    let a3 := g * a2
-    { a1 := a1, a2 := a2, a3 := a3, m0 := (1.0 : α), m1 := k * (a - (1.0 : α)), m2 := a * a - (1.0 : α) }
-  | .highShelf =>
-    let a := KOps.pow (10.0 : α) (gain / (40.0 : α))
-    let g := KOps.tan (KOps.pi * relativeFrequency) * KOps.sqrt a
-    let k := (1.0 : α) / q
-    let a1 := (1.0 : α) / ((1.0 : α) + g * (g + k))
-    let a2 := g * a1
-    let a3 := g * a2
-    { a1 := a1, a2 := a2, a3 := a3, m0 := a * a, m1 := k * ((1.0 : α) - a) * a, m2 := (1.0 : α) - a * a }
+  gen_body% Gen.eqCoefficientsCalculate kind frequency q gain dt
+gen_alias Gen.eqCoefficientsCalculate => EqCoefs.calculate
 
 /-- mirrors: eq_filter.rs::EqFilter (+ the pending commands of its `CommandReaders`) -/
 structure EqFilter (α : Type) where
@@ -73,10 +35,11 @@ namespace EqFilter
 
 /-- mirrors: EqFilterBuilder::build / EqFilter::new (defaults 500.0, Decibels::IDENTITY, 1.0) -/
 def new (kind : EqFilterKind) (frequency gain q : Value α α) : EqFilter α :=
+  gen_body%
   { kind := kind
-    frequency := Parameter.new frequency (500.0 : α)
-    gain := Parameter.new gain (0.0 : α)
-    q := Parameter.new q (1.0 : α)
+    frequency := Parameter.new frequency Gen.eqFilterDefaultFrequency
+    gain := Parameter.new gain Gen.eqFilterDefaultGain
+    q := Parameter.new q Gen.eqFilterDefaultQ
     ic1eq := Frame.zero, ic2eq := Frame.zero
     cmdKind := none, cmdFrequency := none, cmdGain := none, cmdQ := none }
 
